@@ -86,6 +86,7 @@ class Env:
         o = Obj(info, dict(attrs), tag)
         if tag:
             self.ctx.inputs[tag] = o
+        self.ip.fill_unknown_attrs(o)
         return o
 
     def plain_obj(self, tag=None, **attrs):
